@@ -155,7 +155,7 @@ func execute3(c *Case3) {
 			row := []FS{}
 			for j := 0; j < compNpar(cc); j++ {
 				v := p.At(o).GetFloat64()
-				if math.IsNaN(v) {
+				if math.IsNaN(v) && cc.Fam != 10 { // rate families: a NaN parameter counts as failure (as in round 1); normal: replayed bit-exactly
 					c.Err = true
 					c.Res = nil
 					return
@@ -188,7 +188,7 @@ func execute3(c *Case3) {
 		row := []FS{}
 		for j := 0; j < p.Dim(); j++ {
 			v := p.At(j).GetFloat64()
-			if math.IsNaN(v) {
+			if math.IsNaN(v) && c.Comps[0].Fam != 10 {
 				c.Err = true
 				return
 			}
